@@ -27,6 +27,8 @@ Y7  a memo (`if k not in self.m: self.m[k] = E`) whose key leaves out an argumen
 Y8  a function declared `-> Optional[T]` returning `a and b` (False is not None).
 Y9  labels handed out / rules recorded while iterating over a set (hash order).
 Y11 the result of a method that only builds and returns a new object is thrown away.
+Y12 in a chain of isinstance tests that each leave (return / raise / continue), a class is
+    tested after one of its base classes: its branch is never reached.
 Y10 a copy / pickle hook (`__getstate__`, `__setstate__`, `__reduce__`, `__copy__`, `__deepcopy__`)
     that does anything but carry the whole instance dictionary over.
 """
@@ -115,6 +117,12 @@ def run(ctx, modules: Tuple[str, ...]) -> None:
         rets = [r for r in C.returns_of(fi.node) if r.value is not None]
         if rets and any(isinstance(r.value, ast.GeneratorExp) or (isinstance(r.value, ast.Call) and norm(r.value.func).split(".")[-1] in ("map", "filter", "zip")) for r in rets):
             one_shot_returners[fi.name] = fi
+    # names that resolve only to functions declared `-> Optional[int]`
+    by_name: Dict[str, List[FuncInfo]] = {}
+    for fi in P.all_functions():
+        by_name.setdefault(fi.name, []).append(fi)
+    opt_int_returners = {nm: fs for nm, fs in by_name.items() if not nm.startswith("__")
+                         and all(x.node.returns is not None and norm(x.node.returns) in ("Optional[int]", "Optional[float]") for x in fs)}
     for fi in funcs:
         f = fi.node
         n_fn += 1
@@ -232,6 +240,68 @@ def run(ctx, modules: Tuple[str, ...]) -> None:
                 if isinstance(r.value, ast.BoolOp) and isinstance(r.value.op, ast.And):
                     ctx.violation("Y8", r, f"{fi.qualname} is declared to return {norm(f.returns)[:50]} and returns `{norm(r.value)[:60]}`: when the left operand is false that is "
                                   "`False` (or another falsy value), not None, and callers that test `is None` take it for a result")
+        # a call declared `-> Optional[int]` is tested with `is None`, never for truth: 0 is a label / an index like any other
+        def _opt_int_call(e: ast.AST) -> Optional[str]:
+            e = D.expanded(f, e) if isinstance(e, ast.Name) else e
+            if not isinstance(e, ast.Call):
+                return None
+            nm = e.func.attr if isinstance(e.func, ast.Attribute) else (e.func.id if isinstance(e.func, ast.Name) else None)
+            tgts = opt_int_returners.get(nm or "")
+            return nm if tgts else None
+        for n in walk_local(f):
+            tested: List[ast.AST] = []
+            if isinstance(n, ast.BoolOp):
+                tested = list(n.values[:-1]) if isinstance(n.op, ast.Or) else list(n.values)
+                if isinstance(n.op, ast.Or) and isinstance(getattr(n, "_parent", None), (ast.If, ast.While, ast.IfExp)) and getattr(n._parent, "test", None) is n:
+                    tested = list(n.values)
+            elif isinstance(n, (ast.If, ast.While, ast.IfExp)):
+                tested = [n.test]
+            elif isinstance(n, ast.UnaryOp) and isinstance(n.op, ast.Not):
+                tested = [n.operand]
+            for t in tested:
+                nm = _opt_int_call(t)
+                if nm:
+                    ctx.violation("Y8", t, f"{fi.qualname} tests `{norm(t)[:60]}` for truth; `{nm}` is declared `-> Optional[int]`, and the label / index 0 is as false as None: "
+                                  "for that one value the answer is taken to be missing")
+        # ---------------------------------------------------------------- Y12 (isinstance order)
+        def _isinst(t: ast.AST) -> Optional[Tuple[str, List[str]]]:
+            if isinstance(t, ast.Call) and isinstance(t.func, ast.Name) and t.func.id == "isinstance" and len(t.args) == 2:
+                k = t.args[1]
+                names = [norm(x) for x in (k.elts if isinstance(k, ast.Tuple) else [k])]
+                return norm(t.args[0]), [x.split(".")[-1] for x in names]
+            return None
+        for blk in [n for n in walk_local(f) if hasattr(n, "body") and isinstance(getattr(n, "body"), list)] + [f]:
+            for body in (getattr(blk, "body", []), getattr(blk, "orelse", [])):
+                seen_cls: List[Tuple[str, str]] = []
+                for st in body:
+                    chain = []
+                    cur = st
+                    while isinstance(cur, ast.If):
+                        chain.append(cur)
+                        cur = cur.orelse[0] if len(cur.orelse) == 1 and isinstance(cur.orelse[0], ast.If) else None
+                    if not chain:
+                        if not isinstance(st, (ast.Expr, ast.Assign, ast.AnnAssign, ast.Pass)):
+                            seen_cls = []
+                        continue
+                    in_chain: List[Tuple[str, str]] = []
+                    leaving: List[Tuple[str, str]] = []
+                    for iff in chain:
+                        it = _isinst(iff.test)
+                        if it is None:
+                            continue
+                        subj, names = it
+                        for nm in names:
+                            k = P.classes.get(nm)
+                            if k is None:
+                                continue
+                            for (s0, base) in seen_cls + in_chain:
+                                if s0 == subj and base != nm and P.classes.get(base) in P.mro(k)[1:]:
+                                    ctx.violation("Y12", iff.test, f"{fi.qualname}: `{norm(iff.test)}` comes after the test for {base}, and {nm} is a subclass of {base}: every {nm} "
+                                                  f"has already left through the {base} branch, so this branch is never taken")
+                        in_chain.extend((subj, nm) for nm in names)
+                        if iff.body and isinstance(iff.body[-1], (ast.Return, ast.Raise, ast.Continue, ast.Break)):
+                            leaving.extend((subj, nm) for nm in names)
+                    seen_cls.extend(leaving)
         # ---------------------------------------------------------------- Y9 (hash order)
         for n in walk_local(f):
             it = None
@@ -280,6 +350,58 @@ def run(ctx, modules: Tuple[str, ...]) -> None:
             if missing:
                 ctx.violation("Y7", st, f"{fi.qualname} remembers `{norm(st.value)[:50]}` in self.{memo} under the key `{ktxt}`, but the value also depends on the argument(s) "
                               f"{missing}: a later call with the same `{ktxt}` and other {missing[0]} is answered with the remembered value")
+        # a result memo kept in a set (`if K in M: return ... M.add(K)` after the work): K names every argument the work reads
+        for g in [f] + [x for x in ast.walk(f) if isinstance(x, (ast.FunctionDef, ast.AsyncFunctionDef)) and x is not f]:
+            ga = g.args
+            gparams = [x.arg for x in ga.posonlyargs + ga.args + ga.kwonlyargs if x.arg not in ("self", "cls")]
+            if len(gparams) < 2:
+                continue
+            for iff in walk_local(g):
+                if not (isinstance(iff, ast.If) and isinstance(iff.test, ast.Compare) and len(iff.test.ops) == 1 and isinstance(iff.test.ops[0], ast.In)
+                        and iff.body and isinstance(iff.body[-1], ast.Return) and not iff.orelse):
+                    continue
+                ktxt, mtxt = norm(iff.test.left), norm(iff.test.comparators[0])
+                if mtxt in gparams:
+                    continue        # a set handed down by the caller lives as long as one traversal: a visited mark, not a memo
+                adds = [c for c in walk_local(g) if isinstance(c, ast.Call) and isinstance(c.func, ast.Attribute) and c.func.attr == "add" and norm(c.func.value) == mtxt
+                        and len(c.args) == 1 and norm(c.args[0]) == ktxt and c.lineno > iff.lineno]
+                if not adds:
+                    continue
+                knames = {x.id for x in ast.walk(iff.test.left) if isinstance(x, ast.Name)}
+                if not knames & set(gparams):
+                    continue
+                last = max(c.lineno for c in adds)
+                work = [c for c in walk_local(g) if isinstance(c, ast.Call) and iff.end_lineno < c.lineno < last and c not in adds]
+                missing = sorted({x.id for c in work for a in list(c.args) + [k.value for k in c.keywords] for x in ast.walk(a) if isinstance(x, ast.Name)}
+                                 & set(gparams) - knames)
+                if work and missing:
+                    ctx.violation("Y7", adds[-1], f"{fi.qualname}.{g.name} remembers the outcome of its work in `{mtxt}` under the key `{ktxt}` and answers later calls from it, but the "
+                                  f"work between the test and the entry also reads the argument(s) {missing}: a later call with the same `{ktxt}` and other {missing[0]} is cut short",
+                                  construct=f"{g.name} result memo {mtxt} key {ktxt} missing {missing}")
+        # a memo in a local table across the rounds of a loop: `if K not in M: M[K] = E` where K is made from a *part* of an
+        # object (r.a) and E is asked of the whole object (r.m(...)): two objects that share the part get one answer
+        for st in walk_local(f):
+            if not (isinstance(st, ast.Assign) and len(st.targets) == 1 and isinstance(st.targets[0], ast.Subscript) and isinstance(st.targets[0].value, ast.Name)):
+                continue
+            mname = st.targets[0].value.id
+            key = st.targets[0].slice
+            ktxt = norm(key)
+            if not any(pol is False and norm(t) == f"{ktxt} in {mname}" or pol is True and norm(t) == f"{ktxt} not in {mname}" for t, pol in C.flatten_guards(C.guards(f, st))):
+                continue
+            loops_ = C.enclosing_loops(f, st)
+            mdefs = D.definitions(f).get(mname, [])
+            if not loops_ or not mdefs or any(any(d[0] is x for x in ast.walk(loops_[-1])) for d in mdefs):
+                continue        # not a table that outlives the rounds of the loop
+            kparts = {(a.value.id, a.attr) for a in ast.walk(key) if isinstance(a, ast.Attribute) and isinstance(a.value, ast.Name)}
+            kwhole = {x.id for x in ast.walk(key) if isinstance(x, ast.Name) and not (isinstance(getattr(x, "_parent", None), ast.Attribute))}
+            for r_, a_ in sorted(kparts):
+                if r_ in kwhole:
+                    continue
+                whole = [x for x in ast.walk(st.value) if isinstance(x, ast.Name) and x.id == r_
+                         and not (isinstance(getattr(x, "_parent", None), ast.Attribute) and x._parent.attr == a_)]
+                if whole:
+                    ctx.violation("Y7", st, f"{fi.qualname} remembers `{norm(st.value)[:50]}` under `{ktxt}` across the rounds of its loop: the key is made from `{r_}.{a_}` only, "
+                                  f"the value is asked of `{r_}` as a whole -- another `{r_}` with the same `{a_}` is answered with what was computed for the first")
         # ---------------------------------------------------------------- Y6
         for n in walk_local(f):
             key = None
